@@ -14,6 +14,9 @@ use std::fmt::{self, Display, Formatter};
 
 use async_graphql_value::Name;
 pub use parse::{parse_query, parse_schema};
+#[cfg(feature = "verif-hooks")]
+#[doc(hidden)]
+pub use parse::{verif_block_string_value, verif_string_value};
 use pest::{RuleType, error::LineColLocation};
 pub use pos::{Pos, Positioned};
 use serde::{Serialize, Serializer};
